@@ -3,6 +3,7 @@ import FractopoModel.Generated.ValidationDefaults
 import FractopoModel.Generated.IndexMargins
 import FractopoModel.Generated.SnapConstants
 import FractopoModel.Generated.JunctionShift
+import FractopoModel.Props.C08
 /-!
 # C16 — spatial indexing is a pure optimisation
 
@@ -134,5 +135,50 @@ theorem C16_defaults : 0 ≤ Gen.SNAP_THRESHOLD ∧ 1 ≤ Gen.SNAP_THRESHOLD_ERR
   decide +kernel
 
 example : (BoxP.expand ⟨0, 0, 1, 0⟩ (11 / 1000)).meets ⟨0, 1 / 100, 1, 1 / 100⟩ := by decide +kernel
+
+/-! ### the candidate window of `determine_boundary_intersecting_lines` is transparent -/
+
+section BoundaryLines
+variable {A L P : Type}
+
+/-- **Boundary-intersection flags do not depend on the candidate window.** For the regenerated loops of
+`determine_boundary_intersecting_lines`: any two window queries that both return every line lying strictly within the threshold of
+an area's boundary (whatever else they return, in whatever order, however many areas have an EMPTY window, in whatever row
+position) give the same two flag arrays -- in particular the spatial index and the return-everything index agree. -/
+theorem C16_boundary_lines_transparent (areas : List A) (wq1 wq2 : A → List Nat) (line_at : Nat → L) (ldist : L → A → Rat) (ends_of : L → List P)
+    (pdist : P → A → Rat) (within : P → A → Bool) (touches : L → A → Bool) (iv : List Nat) (t : Rat)
+    (h1 : ∀ a ∈ areas, ∀ c ∈ iv, C08.nearB line_at ldist t a c = true → c ∈ wq1 a)
+    (h2 : ∀ a ∈ areas, ∀ c ∈ iv, C08.nearB line_at ldist t a c = true → c ∈ wq2 a) :
+    Gen.boundary_intersecting_lines areas wq1 line_at ldist ends_of pdist within touches iv t
+      = Gen.boundary_intersecting_lines areas wq2 line_at ldist ends_of pdist within touches iv t := by
+  have key : ∀ (wq : A → List Nat), (∀ a ∈ areas, ∀ c ∈ iv, C08.nearB line_at ldist t a c = true → c ∈ wq a) →
+      ∀ (g : A → Nat → Bool), ∀ idx ∈ iv,
+        (areas.any fun a => (wq a).any fun c => c == idx && (C08.nearB line_at ldist t a c && g a c))
+          = areas.any fun a => C08.nearB line_at ldist t a idx && g a idx := by
+    intro wq hw g idx hidx
+    rw [Bool.eq_iff_iff]
+    simp only [List.any_eq_true, Bool.and_eq_true, beq_iff_eq]
+    constructor
+    · rintro ⟨a, ha, c, _, rfl, hn, hg⟩; exact ⟨a, ha, hn, hg⟩
+    · rintro ⟨a, ha, hn, hg⟩; exact ⟨a, ha, idx, hw a ha idx hidx hn, rfl, hn, hg⟩
+  rw [C08.C08_generated_boundary_lines, C08.C08_generated_boundary_lines]
+  have e1 : ∀ (wq : A → List Nat), (∀ a ∈ areas, ∀ c ∈ iv, C08.nearB line_at ldist t a c = true → c ∈ wq a) →
+      (iv.map fun idx => areas.any fun a => (wq a).any fun c => c == idx && C08.nearB line_at ldist t a c)
+        = iv.map fun idx => areas.any fun a => C08.nearB line_at ldist t a idx := by
+    intro wq hw
+    apply List.map_congr_left
+    intro idx hidx
+    have := key wq hw (fun _ _ => true) idx hidx
+    simpa using this
+  have e2 : ∀ (wq : A → List Nat), (∀ a ∈ areas, ∀ c ∈ iv, C08.nearB line_at ldist t a c = true → c ∈ wq a) →
+      (iv.map fun idx => areas.any fun a => (wq a).any fun c => c == idx && (C08.nearB line_at ldist t a c && C08.cutsB line_at ends_of pdist within touches t a c))
+        = iv.map fun idx => areas.any fun a => C08.nearB line_at ldist t a idx && C08.cutsB line_at ends_of pdist within touches t a idx := by
+    intro wq hw
+    apply List.map_congr_left
+    intro idx hidx
+    exact key wq hw (fun a c => C08.cutsB line_at ends_of pdist within touches t a c) idx hidx
+  rw [e1 wq1 h1, e1 wq2 h2, e2 wq1 h1, e2 wq2 h2]
+
+end BoundaryLines
 
 end C16
